@@ -548,7 +548,7 @@ impl Check for C03 {
     }
     fn run_shard(&self, ctx: &Ctx, rec: &mut Rec) {
         let (na, nk) = match ctx.tier {
-            Tier::Quick => (1500, 500),
+            Tier::Quick => (3000, 1000),
             Tier::Thorough => (20000, 8000),
         };
         prop_loop(ctx, rec, "alias", alias_strategy(), ctx.share(na), judge_alias);
